@@ -414,12 +414,12 @@ func (l *linear) recognizeBE() {
 		}
 		k := 0
 		if x.Op == "div" && x.Args[1].IsInt() {
-			sh, ok := log2(x.Args[1].I)
-			if !ok || sh%8 != 0 {
+			if sh, ok := log2(x.Args[1].I); ok && sh%8 == 0 {
+				k = sh / 8
+				x = x.Args[0]
+			} else if a.Op == "div" {
 				continue
 			}
-			k = sh / 8
-			x = x.Args[0]
 		}
 		q, r := new(big.Int).QuoRem(l.coef[key], Pow2(uint(8*k)), new(big.Int))
 		if r.Sign() != 0 {
@@ -798,6 +798,12 @@ func StrLen(s *Term) *Term {
 		if n, ok := fixedLenUF[s.Name]; ok {
 			return Int(int64(n))
 		}
+	case "str.substr":
+		// len(substr(x,a,l)) == l when the window lies inside x
+		x, a, l := s.Args[0], s.Args[1], s.Args[2]
+		if Le(Int(0), a).IsTrue() && Le(Int(0), l).IsTrue() && Le(Add(a, l), mk("str.len", SInt, x)).IsTrue() {
+			return l
+		}
 	}
 	return mk("str.len", SInt, s)
 }
@@ -871,10 +877,11 @@ func Substr(s, off, n *Term) *Term {
 			}
 		}
 	}
-	// substr(substr(x,a,l1), b, l2) with b+l2<=l1 concrete
-	if s.Op == "str.substr" && off.IsInt() && n.IsInt() && s.Args[2].IsInt() {
-		if new(big.Int).Add(off.I, n.I).Cmp(s.Args[2].I) <= 0 && off.I.Sign() >= 0 {
-			return mk("str.substr", SString, s.Args[0], Add(s.Args[1], off), n)
+	// substr(substr(x,a,l1), b, l2) == substr(x, a+b, l2) when 0<=a, 0<=b, 0<=l2, b+l2<=l1 and a+l1<=len(x)
+	if s.Op == "str.substr" {
+		x, a, l1 := s.Args[0], s.Args[1], s.Args[2]
+		if Le(Int(0), a).IsTrue() && Le(Int(0), off).IsTrue() && Le(Int(0), n).IsTrue() && Le(Add(off, n), l1).IsTrue() && Le(Add(a, l1), StrLen(x)).IsTrue() {
+			return Substr(x, Add(a, off), n)
 		}
 	}
 	return mk("str.substr", SString, s, off, n)
@@ -1116,6 +1123,35 @@ func substTerms(t *Term, m map[string]*Term) *Term {
 		return t
 	}
 	return rebuild(t, args)
+}
+
+// resimp: rebuild t bottom-up through the smart constructors (so that facts learnt since t was built
+// — bounds, definitions — take effect); memoised per call
+func resimp(t *Term, m map[string]*Term, memo map[*Term]*Term) *Term {
+	switch t.Op {
+	case "int", "bool", "str", "seq.empty":
+		return t
+	}
+	if r, ok := memo[t]; ok {
+		return r
+	}
+	if len(m) > 0 {
+		if r, ok := m[t.String()]; ok {
+			memo[t] = r
+			return r
+		}
+	}
+	if len(t.Args) == 0 || t.Op == "forall" || t.Op == "exists" {
+		memo[t] = t
+		return t
+	}
+	args := make([]*Term, len(t.Args))
+	for i, a := range t.Args {
+		args[i] = resimp(a, m, memo)
+	}
+	r := rebuild(t, args)
+	memo[t] = r
+	return r
 }
 
 func isAtomic(t *Term) bool {
